@@ -15,6 +15,10 @@
 //	      OTHER key's id is chosen after the fact so that the RAW output carries its TINK / CRUNCHY / LEGACY
 //	      prefix; keysets [P,R] / [R,P] with either primary and 3-key shapes with the colliding key DISABLED.
 //
+//	  (d) section monitoring-faults (monfaults.go): the monitoring client as a collaborator whose NewLogger may fail
+//	      (deviation-bounded): 11 factories x 3 annotated keysets x FailAt {-1,0,1,2,3}; a factory reports the error or
+//	      returns a primitive whose operations never panic and give the model's verdicts.
+//
 // For every keyset the wrapped primitive is built with tink's factory, its output is judged (framing
 // of the primary; accepted by exactly the single-key primitives the model names) and it is probed
 // with outputs of EVERY key of a universe (the keyset's keys and foreign keys: same id+variant but
@@ -1099,7 +1103,9 @@ func main() {
 		secs = append(secs, h.Section{Name: n, Body: rotationBody(c, n, 4, false), Bound: -1, Serial: true, Tiers: "thorough"})
 	}
 	secs = append(secs, h.Section{Name: "cryptofmt-output-prefix", Body: cryptofmtSection, Bound: -1})
+	// monitoring client as a faulty collaborator (monfaults.go): Serial, it swaps the process-global client
+	secs = append(secs, h.Section{Name: "monitoring-faults", Body: monitoringFaultsSection, Bound: 1, Serial: true})
 	h.Main("C05", "model_checking",
-		"per primitive class (AEAD, DAEAD, MAC, signature, hybrid, streaming AEAD, PRF set, JWT MAC, JWT signature; 2-3 key types each incl. legacy non-full primitives via KmsEnvelopeAeadKey / custom key managers): (a) all keysets of size 1-2 over {shapes} x {ENABLED,DISABLED,DESTROYED} x ids {0,1,0xFFFFFFFF} x material {0,1} x every primary x both orders, size 3 over a reduced alphabet; (b) BFS to fixpoint over keyset.Manager histories (<= 3 keys, thorough also <= 4 keys over a reduced Add alphabet; SetPrimary/Enable/Disable/Delete). A state is one keyset / manager state; a transition is one probe (an output of a single key of the universe, or the wrapped primitive's own output judged by a single-key primitive) whose verdict and monitoring events are compared with the selection model verif/ref/selection.go. An execution is non-trivial when a wrapped primitive was built and probed.",
+		"per primitive class (AEAD, DAEAD, MAC, signature, hybrid, streaming AEAD, PRF set, JWT MAC, JWT signature; 2-3 key types each incl. legacy non-full primitives via KmsEnvelopeAeadKey / custom key managers): (a) all keysets of size 1-2 over {shapes} x {ENABLED,DISABLED,DESTROYED} x ids {0,1,0xFFFFFFFF} x material {0,1} x every primary x both orders, size 3 over a reduced alphabet; (b) BFS to fixpoint over keyset.Manager histories (<= 3 keys, thorough also <= 4 keys over a reduced Add alphabet; SetPrimary/Enable/Disable/Delete). A state is one keyset / manager state; a transition is one probe (an output of a single key of the universe, or the wrapped primitive's own output judged by a single-key primitive) whose verdict and monitoring events are compared with the selection model verif/ref/selection.go. (d) monitoring-faults: factories of the monitored classes x annotated keysets {[A*],[A*,B],[A,B*]} x the NewLogger call that fails {-1 (healthy),0,1,2,3}: error, or a primitive whose operations never panic and give the model's verdicts and events. An execution is non-trivial when a wrapped primitive was built and probed (monitoring-faults: when the factory was called).",
 		secs)
 }
